@@ -20,6 +20,8 @@ SUSPENDED = object()
 CURRENT = None          # the scheduler of the run in progress (or None)
 _REAL_LOCK = _thread.allocate_lock
 _REAL_RLOCK = threading.RLock
+_REAL_CONDITION = threading.Condition
+_THREADING_FILE = threading.__file__
 _SRC_PREFIX = [None]
 
 
@@ -140,6 +142,7 @@ class CoopLock(object):
         self._count = 0
         self._wake = queue.Queue()
         self._waiting = 0
+        self._conds = []
         self._fallback = _REAL_RLOCK() if reentrant else _REAL_LOCK()
 
     def acquire(self, blocking=True, timeout=-1):
@@ -183,9 +186,23 @@ class CoopLock(object):
         if self._count > 0:
             return
         self._owner = None
-        if self._waiting and s is not None:
+        if s is None:
+            return
+        ready = None
+        if not self._waiting:
+            for c in self._conds:
+                if c._tokens and c._parked:
+                    ready = c
+                    break
+        if self._waiting or ready is not None:
             me = s.me()
-            self._wake.put(1)
+            if me is None:
+                return
+            if self._waiting:
+                self._wake.put(1)
+            else:
+                ready._parked = False
+                ready._wake.put(1)
             # the waiter runs now; this actor is parked until the waiter's action has finished or blocks again
             r = s._wait(me)
             if r is not SUSPENDED:
@@ -206,10 +223,102 @@ class CoopLock(object):
         return self._owner == (("actor", me) if me is not None else ("real", threading.get_ident()))
 
 
+class CoopCondition(object):
+    """stand-in for threading.Condition objects created by the code under test, directly or inside a
+    threading.Semaphore / BoundedSemaphore / Event it creates.  wait() hands the baton to the parked actor (the only one
+    that can notify); notify() leaves a token that is handed over when the notifier releases the lock."""
+
+    def __init__(self, lock=None):
+        if lock is None:
+            lock = CoopLock(True)
+        if not isinstance(lock, CoopLock):
+            raise core.HarnessError("condition of the code under test over a lock the simulator does not own")
+        self._lock = lock
+        self.acquire = lock.acquire
+        self.release = lock.release
+        self._sleepers = 0
+        self._tokens = 0
+        self._parked = False
+        self._wake = queue.Queue()
+        self._real = _REAL_CONDITION(lock._fallback)
+        lock._conds.append(self)
+
+    def __enter__(self):
+        return self._lock.acquire()
+
+    def __exit__(self, *a):
+        self._lock.release()
+
+    def _is_owned(self):
+        return self._lock._is_owned()
+
+    def wait(self, timeout=None):
+        if not self._lock._is_owned():
+            raise RuntimeError("cannot wait on un-acquired lock")
+        s = CURRENT
+        me = s.me() if s is not None else None
+        lk = self._lock
+        if me is None:
+            saved = (lk._owner, lk._count)
+            lk._owner, lk._count = None, 0
+            try:
+                return self._real.wait(timeout)
+            finally:
+                lk._owner, lk._count = saved
+        saved = lk._count
+        self._sleepers += 1
+        lk._count = 1
+        lk.release()
+        while self._tokens == 0:
+            # only the parked actor can notify: it resumes its own work; this actor sleeps until a token is handed over
+            self._parked = True
+            s.stats["condition_wait_handed_baton"] = s.stats.get("condition_wait_handed_baton", 0) + 1
+            s.inbox[1 - me].put(("blocked",))
+            self._wake.get()
+        self._tokens -= 1
+        self._sleepers -= 1
+        lk.acquire()
+        lk._count = saved
+        return True
+
+    def wait_for(self, predicate, timeout=None):
+        r = predicate()
+        while not r:
+            self.wait(timeout)
+            r = predicate()
+        return r
+
+    def notify(self, n=1):
+        if not self._lock._is_owned():
+            raise RuntimeError("cannot notify on un-acquired lock")
+        s = CURRENT
+        if s is None or s.me() is None:
+            self._real.notify(n)
+            return
+        self._tokens = min(self._sleepers, self._tokens + n)
+
+    def notify_all(self):
+        self.notify(1 << 30)
+
+    notifyAll = notify_all
+
+
+def _creator_frame():
+    """the frame that asked for the primitive, looking through threading.py's own Semaphore/Event/Condition/Barrier
+    constructors (but not through Thread.__init__: the events of a thread object belong to real, unscheduled threads)"""
+    f = sys._getframe(3)
+    while f is not None and f.f_code.co_filename == _THREADING_FILE:
+        if f.f_code.co_name != "__init__" or type(f.f_locals.get("self")).__name__ not in (
+                "Semaphore", "BoundedSemaphore", "Event", "Condition"):
+            return None
+        f = f.f_back
+    return f
+
+
 def _from_code_under_test():
-    f = sys._getframe(2)
+    f = _creator_frame()
     pre = _SRC_PREFIX[0]
-    return bool(pre) and f.f_code.co_filename.startswith(pre)
+    return bool(pre) and f is not None and f.f_code.co_filename.startswith(pre)
 
 
 def _lock_factory(*a, **k):
@@ -224,11 +333,18 @@ def _rlock_factory(*a, **k):
     return _REAL_RLOCK(*a, **k)
 
 
+def _condition_factory(lock=None):
+    if isinstance(lock, CoopLock) or (lock is None and _from_code_under_test()):
+        return CoopCondition(lock)
+    return _REAL_CONDITION(lock)
+
+
 def install_lock_seam(src_prefix):
     """must run before the code under test is imported (module-level locks are created at import)"""
     _SRC_PREFIX[0] = src_prefix
     threading.Lock = _lock_factory
     threading.RLock = _rlock_factory
+    threading.Condition = _condition_factory
 
 
 def begin():
